@@ -14,7 +14,14 @@ import (
 	symgo "vp/symgo"
 )
 
-const repoDir = "/repo"
+// repoDir is /repo; VP_REPO overrides it only for development runs against a
+// scratch worktree (seeded changes); registered commands never set it.
+var repoDir = func() string {
+	if d := os.Getenv("VP_REPO"); d != "" {
+		return d
+	}
+	return "/repo"
+}()
 
 func verifDir() string {
 	if d := os.Getenv("VP_VERIF_DIR"); d != "" {
